@@ -3,7 +3,7 @@
    specification: coq/spec/MmrSpec.v (peaks_spec = roots of the perfect trees over the chunks of the leaf
    list given by the binary expansion of its length, highest first). *)
 From Coq Require Import ZArith List Bool.
-From TF Require Import Word MmrIdxLocal Mmr MmrSpec MmrTerm MmrProofs.
+From TF Require Import Word MmrIdxLocal Mmr MmrSpec MmrTerm MmrProofs MmrSmall.
 Import ListNotations.
 Open Scope Z_scope.
 
@@ -90,3 +90,11 @@ Theorem C11_rejects_dup_oob : forall (D : Type) (H : D -> D -> D) (deq : D -> D 
   verify_batch_update D H deq a new_peaks appended lms = Some false.
 Proof. exact vbu_rejects_dup_oob. Qed.
 Print Assumptions C11_rejects_dup_oob.
+
+(* PARTIAL stand-in for the batch step and for verify_batch_update_iff: bounded exhaustive on the free hash
+   (batch_case in proofs/MmrSmall.v: every ordered list of 1..3 distinct mutated leaves of every MMR with up
+   to 10 leafs: batch_mutate_leaf_and_update_mps yields the peaks built from scratch; verify_batch_update
+   accepts exactly the right peaks) *)
+Theorem C11_batch_small_partial : forall n : nat, (n <= 10)%nat -> batch_case n = true.
+Proof. exact batch_case_small. Qed.
+Print Assumptions C11_batch_small_partial.
